@@ -57,6 +57,16 @@ def gen_plan(rng, depth=3, hostile=True, max_files=5):
                 pl.dirs.add(p)
                 fill(p, level + 1)
     fill('', 0)
+    # now and then two files of one directory with the very same content (their entries can end up EQUAL but for the path:
+    # whatever removes or compares entries must not take one for the other)
+    by_dir = {}
+    for p in sorted(pl.files):
+        by_dir.setdefault(os.path.dirname(p), []).append(p)
+    for d, ps in sorted(by_dir.items()):
+        if len(ps) >= 2 and rng.random() < 0.3:
+            a, b = rng.sample(ps, 2)
+            pl.files[b] = pl.files[a]
+            pl.twins = getattr(pl, 'twins', []) + [(a, b)]
     return pl
 
 
